@@ -36,7 +36,9 @@ pub use consolidate::{
 pub use wal::PersistWal;
 
 use crate::storage::{StorageError, StorageResult};
-use crate::value::{record_batch_to_tuples, tuples_to_record_batch, DataType, Tuple, TupleSchema};
+use crate::value::{
+    record_batch_to_tuples, tuples_to_record_batch, DataType, Tuple, TupleSchema, Value,
+};
 use parking_lot::{Mutex, RwLock};
 use std::collections::HashMap;
 use std::fs;
@@ -681,7 +683,32 @@ fn infer_schema_from_updates(updates: &[Update]) -> TupleSchema {
         .values()
         .iter()
         .enumerate()
-        .map(|(i, v)| (format!("col{i}"), v.data_type()))
+        .map(|(i, v)| {
+            // A fixed-size list only fits when every vector of the column has the first
+            // row's (non-zero) dimension; otherwise store the column as a variable-length
+            // list so vectors of any dimension survive.
+            let dtype = match v.data_type() {
+                DataType::Vector { dim: Some(d) }
+                    if d == 0
+                        || updates.iter().any(|u| {
+                            u.data.get(i).and_then(Value::as_vector).map(<[f32]>::len) != Some(d)
+                        }) =>
+                {
+                    DataType::Vector { dim: None }
+                }
+                DataType::VectorInt8 { dim: Some(d) }
+                    if d == 0
+                        || updates.iter().any(|u| {
+                            u.data.get(i).and_then(Value::as_vector_int8).map(<[i8]>::len)
+                                != Some(d)
+                        }) =>
+                {
+                    DataType::VectorInt8 { dim: None }
+                }
+                other => other,
+            };
+            (format!("col{i}"), dtype)
+        })
         .collect();
 
     TupleSchema::new(fields)
